@@ -15,6 +15,7 @@ import Dawgs.Proofs.C15
 import Dawgs.Proofs.C15Tarjan
 import Dawgs.Proofs.C15Lift
 import Dawgs.Proofs.C15Sound
+import Dawgs.Proofs.C15TarjanFull
 namespace Dawgs.C15.Props
 open Dawgs.C15 Dawgs.C16
 
@@ -35,11 +36,10 @@ theorem sccCert_sound (g : Digraph) (comps : List (List Nat)) (h : checkSCC g co
 
 /-! ### 2. Tarjan -/
 
-/-- STATED GOAL (stretch, not proved in this round): the transcribed iterative Tarjan returns, for every
-well-formed digraph, a decomposition the certificate checker accepts (hence, by `sccCert_sound`, the SCC
-decomposition in reverse topological order).  Every check run evaluates `checkSCC` on the implementation's
-(= model's, by the tie) output of every case, so the statement is tested per case and its consequence
-`IsSCC` is then a theorem for that case. -/
+/-- FULL CORRECTNESS of the transcribed iterative Tarjan: for every well-formed digraph it returns a decomposition
+the certificate checker accepts (hence, by `sccCert_sound`, the SCC decomposition in reverse topological order).
+Proved below as `tarjan_correct`.  Every check run still evaluates `checkSCC` on the implementation's (= model's, by
+the tie) output of every case. -/
 def tarjan_correct_full : Prop :=
   ∀ g : Digraph, g.WF → ∃ comps lk, tarjan g = some (comps, lk) ∧ checkSCC g comps = true
 
@@ -57,12 +57,30 @@ theorem tarjan_partition (g : Digraph) (comps : List (List Nat)) (lk : List (Nat
     (∀ v, v ∈ g.nodes ↔ v ∈ comps.flatten) ∧ comps.flatten.Nodup ∧ ∀ C, C ∈ comps → C ≠ [] :=
   tarjan_partition_aux comps lk h
 
-/-- What holds of Tarjan's output for every graph today beyond termination and partition: whenever the checker
-accepts it, it IS the SCC decomposition (soundness is unconditional; what `tarjan_correct_full` still asks is that
-each emitted component is strongly connected and that no edge leads to a later-emitted component). -/
+/-- (kept from the layered plan) whenever the checker accepts Tarjan's output it IS the SCC decomposition. -/
 theorem tarjan_correct_partial (g : Digraph) (comps : List (List Nat)) (lk : List (Nat × Nat))
     (_ht : tarjan g = some (comps, lk)) (hc : checkSCC g comps = true) : IsSCC g comps :=
   checkSCC_sound hc
+
+/-- **Tarjan is correct on every well-formed digraph.**  Invariants of the explicit-stack loop (frames = each dfs cursor
+with the finished nodes above it on the Tarjan stack): the stack is sorted by discovery index; finished nodes have all
+neighbours discovered and `lowLink ≤ discIdx` of every neighbour still on the stack; a cursor's low-link is below the
+low-links of the finished nodes of its frame; every low-link is the discovery index of a stack node reachable from its
+owner; finished nodes on the stack have `lowLink < discIdx`.  When a cursor with `lowLink = discIdx` pops, its frame is
+strongly connected (low-link chains lead back to the root) and no edge leaves it towards the rest of the stack. -/
+theorem tarjan_correct : tarjan_correct_full := by
+  intro g hw
+  have ht := tarjan_isSome g
+  cases h : tarjan g with
+  | none => rw [h] at ht; cases ht
+  | some p =>
+    obtain ⟨comps, lk⟩ := p
+    exact ⟨comps, lk, rfl, tarjan_checkSCC hw comps lk h⟩
+
+/-- the SCC part of C15: partition, same component ⇔ mutually reachable, acyclic condensation — every digraph -/
+theorem tarjan_scc (g : Digraph) (hw : g.WF) : ∃ comps lk, tarjan g = some (comps, lk) ∧ IsSCC g comps := by
+  obtain ⟨comps, lk, h1, h2⟩ := tarjan_correct g hw
+  exact ⟨comps, lk, h1, checkSCC_sound h2⟩
 
 /-! ### 3. ComponentReachable -/
 
@@ -255,12 +273,17 @@ theorem c15_fixed_of_certificate (g : Digraph) (hw : g.WF) (comps : List (List N
     ⟨sieveExact_new _ cap, sieveExact_new _ cap⟩ ops
   exact ⟨_, answers, hnew, hr, ha⟩
 
-/-- The whole of C15 for the repaired code reduces to the one stated goal that is not proved yet
-(`tarjan_correct_full`): nothing else is assumed. -/
+/-- C15 for the repaired code follows from Tarjan's correctness alone. -/
 theorem c15_fixed_of_tarjan (ht : tarjan_correct_full) : C15_stmt true := by
   intro g hw
   obtain ⟨comps, lk, h1, h2⟩ := ht g hw
   exact ⟨⟨comps, lk, h1, checkSCC_sound h2⟩, fun cap ops => c15_fixed_of_certificate g hw comps lk h1 h2 cap ops⟩
+
+/-- **C15 holds for the repaired code**, at the full strength of properties.jsonl: every well-formed digraph, every cache
+capacity, every sequence of public calls in every direction — the SCC decomposition is correct and every answer is
+what plain BFS on the original graph gives.  (For the live code see `c15_full_refuted`; the two variants differ only in
+`putCursor`/`exact`, i.e. hooks/C15-fix.patch.) -/
+theorem c15_fixed : C15_stmt true := c15_fixed_of_tarjan tarjan_correct
 
 /-! ### non-vacuity -/
 
